@@ -498,7 +498,7 @@ def work(exes, family, start, n, owner):
                         part.inconc("z3 unknown")
             elif st in ("read-error", "solve-error"):
                 part.count("%s: rejected with another error: %s" % (family, msg[:50]))
-                if family != "examples":
+                if family != "examples" and "unsolvable" not in msg and "inconsistent" not in msg:       # (an unplanted problem may well be inconsistent)
                     import re
                     fails.append(("C16", "%s/valid-program-rejected/%s" % (family, re.sub(r"\[\d+, \d+\] ", "", msg)[:60]), "a valid generated planning problem is rejected with an error: " + msg))
             nontriv = owner == "C02"
